@@ -358,8 +358,12 @@ def execute(plan: dict, scratch: str, replay: Optional[dict] = None) -> dict:
                     return
                 if norm is None:
                     # accepted something unrepresentable: it must at least not have been silently altered -> it was
-                    bad("E.unrepresentable_accepted", f"{desc}: a value the declared type cannot represent was accepted and "
-                                                      f"stored altered", f"{vclass}|{rclasses}")
+                    if st["kind"] == "files":
+                        bad("E.divergent_file_accepted", f"{desc}: a pre-built file whose footer schema differs from the table's "
+                                                         f"persisted schema was accepted", f"{vclass}")
+                    else:
+                        bad("E.unrepresentable_accepted", f"{desc}: a value the declared type cannot represent was accepted and "
+                                                          f"stored altered", f"{vclass}|{rclasses}")
                     return
                 if got != sorted(model_rows, key=repr):
                     bad("E.rows_differ", f"{desc}: scan() through the {hname} handle returns {len(got)} rows that differ from the "
